@@ -10,6 +10,7 @@ import (
 	"strings"
 	"sync"
 	"sync/atomic"
+	"time"
 
 	"github.com/libp2p/go-libp2p/core/peer"
 	"google.golang.org/protobuf/proto"
@@ -1387,4 +1388,86 @@ func (a *adversary) discoverProtocols(host *fakenet.Host) {
 	pick := alts[a.c.Idx/2%len(alts)]
 	a.sigProto, a.msgProto, a.altProto = protocol.ID(string(pick)+"/sig"), protocol.ID(string(pick)+"/msg"), true
 	a.c.R.Count("cases_adversary_used_alternative_protocol_version", 1)
+}
+
+// ---------------------------------------------------------------------------------------------
+// Deadline-edge play (seeded change C13-r8).
+//
+// The stream handler's context starts when the stream is opened and lasts exactly as long as the read
+// deadline of the stream (bcast: one minute). A sender decides how long the receiver's read takes,
+// so it can make its message arrive at the very edge of that deadline: the handler then runs with a
+// context that expires within microseconds - before, while or after the signatures are verified. The
+// faulty member first obtains every member's signature for payload X under an id and delivers X to one
+// member; then it sends Y under the same id WITH THE SIGNATURES OVER X to the other members, each
+// message trickled so that it arrives eps before the read deadline. Nobody signed Y: whatever the
+// state of the handler's context, Y must not be delivered. The minute of real waiting only places
+// the message (the goroutines sleep while the rest of the case runs); the verdict is the ordinary
+// one over the recorded deliveries.
+
+type edgePlay struct {
+	w   *world
+	to  []int
+	m   fullMsg
+	eps []time.Duration
+}
+
+var edgeEps = []time.Duration{20 * time.Microsecond, 100 * time.Microsecond, 300 * time.Microsecond, time.Millisecond, 3 * time.Millisecond}
+
+func (a *adversary) prepareDeadlineEdge(w *world) *edgePlay {
+	for try := 0; try < 4; try++ {
+		id := a.pickID(w, true)
+		px, anyX := a.payloadFor(id)
+		py, anyY := a.payloadFor(id)
+		if px.kind != kindOfID(id) || py.kind != kindOfID(id) || keyOfAny(anyX) == keyOfAny(anyY) {
+			continue
+		}
+		for _, to := range a.honest() {
+			a.sigReq(w, to, id, anyX, px.Tag, "deadline-edge")
+		}
+		sigs, complete := a.buildSigs(w, id, anyX, "random", nil)
+		hs := a.honest()
+		if !complete || len(hs) < 2 {
+			continue
+		}
+		a.sendMsg(w, hs[0], fullMsg{world: w.idx, sender: a.me, id: id, any: anyX, sigs: sigs, tag: px.Tag}, "deadline-edge-genuine")
+		e := &edgePlay{w: w, to: hs[1:], m: fullMsg{world: w.idx, sender: a.me, id: id, any: anyY, sigs: sigs, tag: py.Tag}}
+		for range e.to {
+			e.eps = append(e.eps, edgeEps[a.rng.Intn(len(edgeEps))])
+		}
+
+		return e
+	}
+	a.count("deadline_edge_plays_not_prepared", 1)
+
+	return nil
+}
+
+// runDeadlineEdge sends the prepared messages from goroutines of their own; wait on the result
+// before the case is evaluated.
+func (a *adversary) runDeadlineEdge(e *edgePlay) *sync.WaitGroup {
+	var wg sync.WaitGroup
+	if e == nil {
+		return &wg
+	}
+	for i, to := range e.to {
+		wg.Add(1)
+		go func(to int, eps time.Duration) {
+			defer wg.Done()
+			mon := a.mon
+			before := mon.advDelivered(e.w, to)
+			t0 := time.Now()
+			_, ok := e.w.net.InjectTrickle(mon.members[a.me].id, mon.members[to].id, a.msgProto, &pb.BCastMessage{Id: e.m.id, Message: e.m.any, Signatures: e.m.sigs}, eps)
+			res := "rejected"
+			if ok && mon.advDelivered(e.w, to) > before {
+				res = "delivered"
+			}
+			a.count("deadline_edge_messages_sent", 1)
+			if time.Since(t0) > 30*time.Second {
+				a.count("deadline_edge_messages_that_arrived_at_the_edge_of_the_read_deadline", 1)
+			}
+			a.addTrace(step{Op: "msg", World: e.w.idx, To: to, ID: e.m.id, Pay: e.m.tag, Label: fmt.Sprintf("deadline-edge-other-payload-with-foreign-signatures(eps=%v)", eps), Result: res})
+		}(to, e.eps[i])
+	}
+
+	return &wg
 }
